@@ -352,6 +352,19 @@ class ThreadSim(object):
                 if bad_ok:
                     self.viol(u["i"], "verifies-under-damaged-certificate", "entity=%s cert=%r..." % (u["e"], dc[:24]))
                     break
+            # a certificate that holds no RSA key at all (EC, Ed25519, DSA - legal in metadata) cannot have made an
+            # RSA signature either
+            for nm in ("ec", "ed25519", "dsa"):
+                with open(os.path.join(seams.FIXTURES, "nonrsa-%s.crt" % nm)) as f_:
+                    body = "".join(l.strip() for l in f_ if l.strip() and not l.startswith("-----"))
+                self.count("oracle.non-rsa-cert")
+                try:
+                    odd_ok = bool(sigver.verify_redirect_signature(dict(args), obj.sec.sec_backend, body))
+                except Exception:
+                    odd_ok = False
+                if odd_ok:
+                    self.viol(u["i"], "verifies-under-non-rsa-certificate", "entity=%s cert=%s" % (u["e"], nm))
+                    break
             # and under every other entity's certificate the library must say no
             for k in keys:
                 if k == u["key"]:
